@@ -16,7 +16,7 @@ concrete and records, the specification judges.
             the model's actions that explains the per-process event streams)
 
   sortscale  SortScale.tla (structured inputs of 39..2500 elements as run-length encoded ramps; law: the clauses on the
-         encoding = the clauses on the arrays) -> the real sorts with the recursion limit raised -> QuicksortTrace.tla
+         encoding = the clauses on the arrays) -> the real sorts at the default recursion limit -> QuicksortTrace.tla
          (Algo!SortFailingR on the run-length encoded result)
   pbarhist   ProgressHist.tla (several wrapper objects over shared / exhausted / failing iterables, finished wrappers
          asked again, consumers walking away) -> consumer scripts (tlc -simulate) on pbar / PBar -> ProgressHistTrace.tla
@@ -68,13 +68,18 @@ def _model_table(ctx):
     B = SORT_BOUNDS[ctx.tier]
     t["sort.mc"] = ("Quicksort.tla", dict(
         what="Quicksort: termination, Sorted /\\ Perm (pairs), partition invariants; export",
-        cfg_text=cfg(spec="Spec", constants=dict(B, KVCarry=True, Log=True, DoExport=True),
-                     invariants=["MechRefines", "PairsTogether", "HoleInv", "SplitInv", "StackInv"],
+        cfg_text=cfg(spec="Spec", constants=dict(B, KVCarry=True, SmallerFirst=True, Log=True, DoExport=True),
+                     invariants=["MechRefines", "PairsTogether", "HoleInv", "SplitInv", "StackInv", "DepthInv"],
                      properties=["Termination"], constraints=["Export"]),
         workers=1, require=QS_LABELS, timeout=3000))
     t["sort.self"] = ("Quicksort.tla", dict(
         what="self-test: key-value partition that leaves a value behind violates MechRefines",
-        cfg_text=cfg(spec="Spec", constants=dict(B, MaxLen=3, KVCarry=False, Log=False, DoExport=False), invariants=["MechRefines"]),
+        cfg_text=cfg(spec="Spec", constants=dict(B, MaxLen=3, KVCarry=False, SmallerFirst=True, Log=False, DoExport=False), invariants=["MechRefines"]),
+        workers=2, allow_violation=True, coverage=False))
+    t["sort.selfdepth"] = ("Quicksort.tla", dict(
+        what="self-test: the pinned control flow (a call for either part) sorts but violates DepthInv",
+        cfg_text=cfg(spec="Spec", constants=dict(B, MaxLen=4, KVCarry=True, SmallerFirst=False, Log=False, DoExport=False),
+                     invariants=["MechRefines", "DepthInv"]),
         workers=2, allow_violation=True, coverage=False))
     T = SCALE_TIERS[ctx.tier]
     sc = dict(Sizes=set(T["small"]) | set(T["large"]), SmallSizes=SCALE_SMALLSIZES, LawModes={"plain", "lin", "pos"},
@@ -329,6 +334,32 @@ def sort_writes(keys_abs, kv):
     return k.writes
 
 
+def sort_depth(keys_abs, kv):
+    """deepest nesting of _quicksort / _quicksort_keyvalue activations while sorting (diagnosis only)"""
+    import sys
+    from esutil import algorithm as al
+    st = {"d": 0, "max": 0}
+    names = ("_quicksort", "_quicksort_keyvalue")
+
+    def prof(frame, event, arg):
+        if frame.f_code.co_name in names:
+            if event == "call":
+                st["d"] += 1
+                st["max"] = max(st["max"], st["d"])
+            elif event == "return":
+                st["d"] -= 1
+    k = list(keys_abs)
+    sys.setprofile(prof)
+    try:
+        if kv:
+            al.quicksort_keyvalue(k, list(range(1, len(k) + 1)))
+        else:
+            al.quicksort(k)
+    finally:
+        sys.setprofile(None)
+    return st["max"]
+
+
 def _sort_sig(c, o, clause):
     if c["variant"] == "plain":
         return "quicksort|%s|%s" % (clause, KEY_KINDS[o["kkind"]][2])
@@ -390,6 +421,9 @@ def part_sort(ctx):
     B = SORT_BOUNDS[ctx.tier]
     r1 = _m(ctx, "sort.mc")     # termination + sorted/permutation/pairs for every array of the scope; every run exported
     r1b = _m(ctx, "sort.self")
+    r1c = _m(ctx, "sort.selfdepth")
+    if r1c.violated != ["DepthInv"]:
+        raise MachineryError("self-test failed: Quicksort with the pinned control flow must violate DepthInv only, got %s" % r1c.violated)
     if "MechRefines" not in r1b.violated:
         raise MachineryError("self-test failed: Quicksort MechRefines not violated by the deviating partition")
     seen, cases = set(), []
@@ -401,7 +435,7 @@ def part_sort(ctx):
     nexp = sum(len(B["Vals"]) ** k for k in range(B["MaxLen"] + 1))
     if len(cases) != nexp:
         raise MachineryError("Quicksort export: %d cases, expected %d" % (len(cases), nexp))
-    recs, nid, wlog_diff = [], 0, []
+    recs, nid, wlog_diff, depth_diff = [], 0, [], []
     for i, cse in enumerate(cases):
         keys = cse["keys"]
         pos = list(range(1, len(keys) + 1))
@@ -414,6 +448,11 @@ def part_sort(ctx):
             w = sort_writes(keys, kv)
             if w != cse["wlog"]:
                 wlog_diff.append({"keys": keys, "kv": kv, "model": cse["wlog"], "code": w})
+            # ... and the model's deepest activation = the code's deepest call with a non-trivial range; the code also
+            # calls itself once more on ranges of fewer than two elements, which the model's depth does not count
+            dcode = sort_depth(keys, kv)
+            if not (cse["maxdep"] <= dcode <= cse["maxdep"] + 1):
+                depth_diff.append({"keys": keys, "kv": kv, "model": cse["maxdep"], "code": dcode})
         # the model's own final state is what the code leaves (same deterministic algorithm)
         ctx.count({"sort": keys})
     for r in recs[:: max(1, len(recs) // 3)][:2]:
@@ -453,7 +492,10 @@ def part_sort(ctx):
     ctx.note(sort=dict(bounds={"MaxLen": B["MaxLen"], "Vals": sorted(B["Vals"])}, exported_arrays=len(cases),
                        plain_containers=PLAIN_KINDS, kv_key_containers=KV_KEY_KINDS, kv_value_containers=KV_VAL_KINDS,
                        seeded_arrays=nrand, seeded_maxlen=maxlen,
-                       write_sequence_mismatches=len(wlog_diff), write_sequence_mismatch_example=wlog_diff[:1]))
+                       write_sequence_mismatches=len(wlog_diff), write_sequence_mismatch_example=wlog_diff[:1],
+                       call_depth_mismatches=len(depth_diff), call_depth_mismatch_example=depth_diff[:1]))
+    if depth_diff:
+        ctx.log("LEAD (mechanism, not a verdict): %d call depths differ between Quicksort.tla and the code, e.g. %s" % (len(depth_diff), depth_diff[0]))
     if wlog_diff:
         ctx.log("LEAD (mechanism, not a verdict): %d write sequences differ between Quicksort.tla and the code, e.g. %s"
                 % (len(wlog_diff), wlog_diff[0]))
@@ -492,19 +534,13 @@ def _pair_ramps(keys, vals):
 
 
 def sortscale_obs(arg):
-    """one scale case through one container combination, recursion limit raised so that the interpreter's default
-    limit (a property of the caller's environment, not of the sort) does not decide the outcome"""
-    import sys
+    """one scale case through one container combination, at the interpreter's DEFAULT recursion limit (a sort that needs a
+    call per element fails there for about a thousand ordered elements: an error is a violation)"""
     c, kkind, vkind = arg
     keys_abs = _ramps_decode(c["keys"])
     n = len(keys_abs)
     vals_abs = ([] if c["variant"] == "plain" else list(range(1, n + 1)) if c["valmode"] == "pos" else [3 * k + 1 for k in keys_abs])
-    old = sys.getrecursionlimit()
-    sys.setrecursionlimit(max(old, 4 * n + 2000))
-    try:
-        o = sort_obs(c["variant"], kkind, vkind, keys_abs, vals_abs)
-    finally:
-        sys.setrecursionlimit(old)
+    o = sort_obs(c["variant"], kkind, vkind, keys_abs, vals_abs)
     if o["err"] == "none":
         o["pr"] = _pair_ramps(o["keys"], o["vals"] if c["variant"] == "kv" else [0] * len(o["keys"]))
     else:
@@ -513,17 +549,12 @@ def sortscale_obs(arg):
     return o
 
 
-def _default_limit_probe(n):
-    """LEAD only: what the sort does with n already sorted elements at the interpreter's default recursion limit"""
-    from esutil import algorithm as al
-    a = list(range(n))
-    try:
-        al.quicksort(a)
-        return "sorted" if all(a[i] <= a[i + 1] for i in range(n - 1)) else "returned_unsorted"
-    except RecursionError:
-        return "RecursionError"
-    except Exception as e:  # noqa
-        return _err(e)
+def _scale_sig(c, o, clause):
+    if o["err"] == "RecursionError":
+        # one defect whatever the container: the recursion is as deep as the ordered input is long
+        return "%s|unexpected_error|ordered_input,%s" % ("quicksort" if c["variant"] == "plain" else "quicksort_keyvalue",
+                                                        "n>=1000" if c["n"] >= 1000 else "n<1000")
+    return _sort_sig(c, o, clause)
 
 
 def _judge_scale(ctx, recs, what, selftest=()):
@@ -538,7 +569,7 @@ def _judge_scale(ctx, recs, what, selftest=()):
         r = byid[rid]
         for k, clause in failing:
             o = r["obs"][k - 1]
-            ctx.violation(_sort_sig(r["c"], o, clause),
+            ctx.violation(_scale_sig(r["c"], o, clause),
                           "in-place sort of %d elements (%s) not allowed by Algo!SortFailingR: clause %s%s"
                           % (r["c"]["n"], r["c"]["shape"], clause, (" (" + o["err"] + ")") if o["err"] != "none" else ""),
                           {"kind": "sortscale", "c": r["c"], "kkind": o["kkind"], "vkind": o["vkind"],
@@ -584,11 +615,10 @@ def part_sortscale(ctx):
         recs.append({"id": i + 1, "c": c, "obs": [obs[j] for j in range(len(jobs)) if owner[j] == i]})
     ctx.sample({"sort_scale_case": {k: v for k, v in recs[-1]["c"].items()}, "observed": recs[-1]["obs"][0]})
     # binding self-test: corrupted encodings of a long result ride along
-    probe = next(r for r in recs if r["c"]["n"] == max(T["large"]) and r["c"]["shape"] == "reversed" and r["c"]["variant"] == "kv"
-                 and r["obs"][0]["err"] == "none")
+    probe = next(r for r in recs if r["c"]["n"] == max(T["large"]) and r["c"]["shape"] == "reversed" and r["c"]["variant"] == "kv")
     n = probe["c"]["n"]
     good = probe["obs"][0]["pr"]
-    if good != [[0, 1, n, -1, n]]:
+    if good != [[0, 1, n, -1, n]] and probe["obs"][0]["err"] == "none":
         if not ctx.violations:
             raise MachineryError("unexpected encoding of a sorted reversed array: %s" % good[:5])
     S = [10 ** 6 + t for t in range(1, 4)]
@@ -597,18 +627,16 @@ def part_sortscale(ctx):
             [[1, 1, n - 1, -1, n - 1], [0, 0, n, 0, 1]],                        # smallest key at the end: not sorted
             [[0, 1, n, -1, h - 1], [h - 1, 0, n - h, 0, 1], [h, 0, n - h + 1, 0, 1], [h + 1, 1, n - h - 1, -1, n - h - 1]]]   # two values exchanged
     want = [{"not_permutation", "pairs_broken"}, {"not_sorted"}, {"pairs_broken"}]
-    rej = _judge_scale(ctx, recs + [{"id": S[t], "c": probe["c"], "obs": [dict(probe["obs"][0], pr=bads[t])]} for t in range(3)],
+    rej = _judge_scale(ctx, recs + [{"id": S[t], "c": probe["c"], "obs": [dict(probe["obs"][0], err="none", pr=bads[t])]} for t in range(3)],
                        "judge scale sort cases on run-length encoded observations (QuicksortTrace; corrupted copies ride along)", selftest=S)
     got = [{f[1] for f in rej.get(S[t], [])} for t in range(3)]
     if got != want and not ctx.violations:
         raise MachineryError("binding self-test failed (sort scale): %s" % got)
-    lead = {str(n): _default_limit_probe(n) for n in sorted(T["large"])}
+    import sys
     ctx.note(sortscale=dict(sizes=sorted(sizes), shapes=8, cases=len(cases), runs=len(jobs), law_states=r1.distinct,
-                            at_default_recursion_limit=lead))
-    if any(v != "sorted" for v in lead.values()):
-        ctx.log("LEAD (interpreter limit, not a verdict): quicksort on already sorted input at the default recursion limit: %s" % lead)
+                            recursion_limit=sys.getrecursionlimit()))
     return ("8 structured shapes (sorted, reversed, constant, runs of ties up / down, organ pipe, rotated, sawtooth) x lengths %s x plain / "
-            "key-value exported from SortScale.tla, %d real sorts (recursion limit raised to 4n + 2000), judged by Algo!SortFailingR "
+            "key-value exported from SortScale.tla, %d real sorts at the interpreter's default recursion limit, judged by Algo!SortFailingR "
             "on run-length encoded results" % (sorted(sizes), len(jobs)))
 
 
@@ -1732,8 +1760,7 @@ def run(ctx):
         "outcome of a call with chunksize=0 is not constrained (only that the calls after it are unaffected)",
         "progress histories: after the wrapped iterable raised, passing the exception on and stopping are both accepted; a pull may "
         "run one item ahead of the consumer (the same weaker reading of 'lazily')",
-        "sorts at scale run with the interpreter's recursion limit raised to 4n + 2000: the default limit is a property of the caller's "
-        "environment; what the sort does with ~1000 already sorted elements at the default limit is recorded as a lead (note sortscale)",
+        "sorts at scale run at the interpreter's default recursion limit (1000): a RecursionError on ordered input is a violation",
     ]
     ctx.trusted_base = ctx.trusted_base + [
         "CPython generator / iterator protocol and concurrent.futures.ProcessPoolExecutor as the substrate the wrappers run on",
